@@ -261,9 +261,11 @@ def gen_spec(rng, N, entry=None, source=None, in_memory=None, allow_int=True, ha
     return spec
 
 
-def do_call(joker, pr, spec, lib=None, path=None, n_int=None):
+def do_call(joker, pr, spec, lib=None, path=None, n_int=None, data=None):
     """run one API call; returns canonical output {"samples": canon, "lls": canon}"""
     entry, source, opts = spec["entry"], spec["source"], dict(spec["opts"])
+    if data is not None:
+        pr = _WithData(pr, data)
     if source == "object":
         ps = lib
     elif source == "file":
@@ -289,6 +291,11 @@ def do_call(joker, pr, spec, lib=None, path=None, n_int=None):
             return {"samples": None, "lls": None, "_obj": None, "returned": repr(out)}
         return {"samples": table_arrays(out), "lls": None, "_obj": out}
     raise ValueError(entry)
+
+
+class _WithData:
+    def __init__(self, pr, data):
+        self.data = data
 
 
 def out_diff(a, b):
